@@ -58,6 +58,9 @@ def replay_at(rec, u, e):
     import numpy as np
     buf = np.array(verts, dtype=np.float64)
     try:
+        vf = AxisymmetricVoxel(np.asfortranarray(buf))            # the same vertices column-major in memory
+        if not (core.close(vf.cross_sectional_area, area, rtol=1e-12) and core.close(vf.volume, vol, rtol=1e-12)):
+            bad("depends-on-the-memory-layout-of-the-vertex-array", f"area {vf.cross_sectional_area!r} vs {area!r}, volume {vf.volume!r} vs {vol!r}")
         v1 = AxisymmetricVoxel(buf)
         buf[:] = np.array(verts, dtype=np.float64) * 0.5 + np.array([20.0, 3.0]) * u        # the next cell: same shape, half the size, elsewhere
         v2 = AxisymmetricVoxel(buf)          # noqa: F841  (the next cell, built from the same buffer)
